@@ -65,7 +65,7 @@ def judge(a, b, m, acc=None, scale=None):
     k = math.floor(math.log10(step) + 1e-9)
     mant = step / 10 ** k
     lead = min((1, 2, 5, 10), key=lambda c: abs(mant - c))
-    if abs(mant - lead) > 1e-9 * lead + 1e-6 * max(abs(lo), abs(hi)) / step * EPS * 1e6:
+    if abs(mant - lead) > 1e-9 * lead + 4 * lead * EPS * max(abs(lo), abs(hi)) / step:  # measured mean gap: n additions at magnitude mag
         return "C13:step-form", "%s: step %r is not 1, 2 or 5 times a power of ten" % (where, step)
     if acc is not None:
         acc.counters["step_%d" % (1 if lead == 10 else lead)] += 1
@@ -109,7 +109,10 @@ def history_cases(a, b):
         for m2 in (None, 3):
             yield ("ticks-nice-ticks", m, m2)
         yield ("ticks-domain-ticks", m, None)
+        yield ("ticks-neardomain-ticks", m, None)
         yield ("ticks-copy-nice", m, None)
+    yield ("stale-formatter", 50, 5)
+    yield ("stale-formatter", 20, 2)
 
 
 def run_history(a, b, kind, m, m2):
@@ -125,6 +128,14 @@ def run_history(a, b, kind, m, m2):
         s.tickFormat(m)
         s.domain([a, b])
         return [s]
+    if kind == "ticks-neardomain-ticks":
+        # a domain shifted by a third of the span first (for narrow domains the two agree to many digits)
+        sh = (b - a) * 0.37
+        s = LinearScale().domain([a + sh, b + sh])
+        list(itertools.islice(s.ticks(m), TICK_CAP))
+        s.tickFormat(m)
+        s.domain([a, b])
+        return [s]
     s = LinearScale().domain([a, b])
     list(itertools.islice(s.ticks(m), TICK_CAP))
     c = s.copy()
@@ -132,7 +143,28 @@ def run_history(a, b, kind, m, m2):
     return [s, c]
 
 
+def judge_stale_formatter(a, b, m, m2):
+    """A formatter handed out for m must keep formatting the m-ticks after the scale was asked for another one."""
+    from labella.scale import LinearScale
+    try:
+        s = LinearScale().domain([a, b])
+        tk = [float(t) for t in itertools.islice(s.ticks(m), TICK_CAP)]
+        fmt = s.tickFormat(m)
+        before = [fmt(t) for t in tk]
+        list(itertools.islice(s.ticks(m2), TICK_CAP))
+        s.tickFormat(m2)
+        after = [fmt(t) for t in tk]
+    except Exception as e:
+        return "EXC:" + type(e).__name__, "stale-formatter sequence on [%r, %r] raised %r" % (a, b, e)
+    if after != before:
+        return ("C13:formatter-changed", "the formatter from tickFormat(%d) on [%r, %r] printed %r, and after tickFormat(%d) prints %r"
+                % (m, a, b, before[:4], m2, after[:4]))
+    return None
+
+
 def judge_history(a, b, kind, m, m2, acc=None):
+    if kind == "stale-formatter":
+        return judge_stale_formatter(a, b, m, m2)
     try:
         scales = run_history(a, b, kind, m, m2)
     except Exception as e:
